@@ -550,6 +550,28 @@ func gen(t *rapid.T) Case {
 		if rapid.IntRange(0, 19).Draw(t, "ghost") == 7 {
 			// a dependency that names nothing: no such target in an existing package, or a package without a BUILD file
 			m.Targets[i].GhostDeps = []string{rapid.SampledFrom([]string{"//nopkg:ghost", ":ghost", "//:ghost", "//p1/none/deep:x", "//nopkg"}).Draw(t, "ghostlabel")}
+			// the bare label of an existing package (it names no target) next to that package's default target
+			// spelled out (which may exist): two spellings that must never be one target run twice. Only packages
+			// whose default targets are all older than this target, so that no cycle arises.
+			var bare []string
+			for p, pk := range m.Pkgs {
+				ok := true
+				for j := range m.Targets {
+					if m.Targets[j].Pkg == p && m.Targets[j].Default && j >= i {
+						ok = false
+					}
+				}
+				if ok {
+					bare = append(bare, pk)
+				}
+			}
+			if len(bare) > 0 && rapid.IntRange(0, 2).Draw(t, "barepkg") == 2 {
+				pk := rapid.SampledFrom(bare).Draw(t, "barepkgname")
+				m.Targets[i].GhostDeps = []string{pk, pk + ":default"}
+				if rapid.Bool().Draw(t, "bareorder") {
+					m.Targets[i].GhostDeps = []string{pk + ":default", pk}
+				}
+			}
 		}
 		if i > 0 && rapid.IntRange(0, 14).Draw(t, "cycle") == 11 {
 			// a forward (or self) dependency written in the BUILD file: a cycle when the other side depends on us
